@@ -283,6 +283,29 @@ class ResolveStream(runner.Stream):
 
     def witnesses(self):
         out = []
+        # a value assignment that has the name of an enumeration item: `DEFAULT item` of a component
+        # typed by (a reference to) the ENUMERATED is the item, an INTEGER component's `DEFAULT item` /
+        # bound is the value — same module, imported by name, imported by object identifier
+        for kind, lit in (("INTEGER", "30"), ("BOOLEAN", "TRUE"), ("UTF8String", '"x"')):
+            vdef = f"standby {kind} ::= {lit}"
+            enum = "Mode ::= ENUMERATED { off, standby, active, ..., boost }"
+            use_i = "timeout INTEGER (0..standby) DEFAULT standby" if kind == "INTEGER" else "timeout INTEGER (0..9) DEFAULT 3"
+            lit_i = "timeout INTEGER (0..30) DEFAULT 30" if kind == "INTEGER" else use_i
+            cfg = "Config ::= SEQUENCE { mode Mode DEFAULT standby, fallback Mode DEFAULT active, %s, ..., turbo [7] Mode DEFAULT boost }"
+            for where in ("local", "byname", "byoid"):
+                if where == "local":
+                    a = [f"Main DEFINITIONS AUTOMATIC TAGS ::= BEGIN\n{vdef}\n{enum}\n{cfg % use_i}\nEND"]
+                    b = [f"Main DEFINITIONS AUTOMATIC TAGS ::= BEGIN\n{vdef}\n{enum}\n{cfg % lit_i}\nEND"]
+                else:
+                    oid = " { 1 2 77 }" if where == "byoid" else ""
+                    lib = f"Lib{oid} DEFINITIONS AUTOMATIC TAGS ::= BEGIN\n{vdef}\nEND"
+                    frm = "Other { 1 2 77 }" if where == "byoid" else "Lib"
+                    a = [f"Main DEFINITIONS AUTOMATIC TAGS ::= BEGIN\nIMPORTS standby FROM {frm};\n{enum}\n{cfg % use_i}\nEND", lib]
+                    b = [f"Main DEFINITIONS AUTOMATIC TAGS ::= BEGIN\nIMPORTS standby FROM {frm};\n{enum}\n{cfg % lit_i}\nEND", lib]
+                for order in ([0, 1], [1, 0]) if len(a) == 2 else ([0],):
+                    ta = ",".join(hx(a[i]) for i in order)
+                    tb = ",".join(hx(b[i]) for i in order)
+                    out.append(f"resolve subst {ta} {tb} regress:enum_item_vs_value:eq")
 
         def mod(name, items, oid=None, imports=None):
             return {"name": name, "oid": oid, "imports": imports or [], "items": items}
